@@ -211,7 +211,7 @@ func dumpFn(w *core.World, fn *ssa.Function) {
 var notClaimed = func() map[string]string {
 	m := map[string]string{}
 	for i := 1; i <= 20; i++ {
-		m[fmt.Sprintf("C%02d", i)] = "obligation table not armed yet in this revision (see DESIGN.md §8 build order); nothing is claimed"
+		m[fmt.Sprintf("C%02d", i)] = "no obligation table is registered for this property in this revision; nothing is claimed"
 	}
 	return m
 }()
@@ -259,6 +259,14 @@ func writeManifest(vdir string) {
 				kinds["IMPL literal-excludes-outcome"] = true
 			case core.FLAG:
 				kinds["FLAG loop-flag guard"] = true
+			case core.NOREACH:
+				kinds["NOREACH effect-unreachable-after"] = true
+			case core.TABLE:
+				kinds["TT exact truth table of a small predicate"] = true
+			case core.ITER:
+				kinds["ITER every-completed-iteration-passes"] = true
+			case core.ERRFLOW:
+				kinds["ERRFLOW failed-result-does-not-reach-effect"] = true
 			case core.Custom:
 				kinds[x.Kind] = true
 			}
@@ -271,12 +279,12 @@ func writeManifest(vdir string) {
 		checks = append(checks, check{
 			PropertyID: id,
 			QuickCmd:   "./run.sh check " + id + " quick",
-			Thorough:   "./run.sh check " + id + " thorough",
+			Thorough:   "./run.sh thorough " + id,
 			Evidence:   "/verif/evidence/" + id + ".json",
 			Replay:     "cat {path}; ./run.sh check " + id + " quick",
 			Engine:     "kverif",
 			Level: level{Category: "other",
-				Text:      "Static analysis of /repo's type-checked SSA: structural necessary conditions of the property are decided for all inputs/schedules at once; the behavioural remainder is listed as not covered. " + p.Explanation,
+				Text:      "Static analysis of /repo's type-checked SSA: structural necessary conditions of the property are decided for all inputs/schedules at once; the behavioural remainder is listed as not covered (level_note). The thorough tier additionally re-runs the analysis on single-site variants of the current tree (mutants and confirmed seeded changes) to show every rule instance is sensitive. " + p.Explanation,
 				DesignRef: "DESIGN.md §3 " + id},
 			LevelNote: "Trusted: go/types + go/ssa (x/tools v0.50.0), the documented contracts of dependency calls, the audited exception rows in checker/props/" + id + "*.go. Not covered: " + strings.Join(p.NotCovered, "; "),
 			Technique: "static analysis over go/ssa: " + strings.Join(ks, ", "),
